@@ -162,3 +162,12 @@ def shapeOk : Term → Bool
 def inFragment (t : Term) : Bool := firstOrder t && shapeOk t
 
 end PySMT.Features
+
+namespace PySMT.Features
+open PySMT
+
+/-- `pow` does not occur (it has no SMT-LIB rank; pySMT's own typing of it is finding F05) -/
+def noPow : Term → Bool
+  | .node op args _ => (op != .pow) && (args.map noPow).all id
+
+end PySMT.Features
